@@ -448,7 +448,7 @@ pub fn run(ctx: &RunCtx) -> i32 {
         exhaustive: false,
     };
     let secrets = secrets(ctx.seed);
-    let n_base = ctx.tier.sz(2500, 120_000);
+    let n_base = ctx.tier.sz(25_000, 3_000_000);
     let per = 25u64;
     let total = par_run(ctx.workers, n_base.div_ceil(per), |j, r| {
         let rt = new_runtime();
